@@ -423,10 +423,14 @@ def d5_thresholds(ctx):
         ctx.assume('R-SIB', 'D5', rm, call[0], 'thresholds', 'wording thresholds equal listing thresholds', detail='firstnmax not constant')
         return
     consts = set()
+    # tests `<number of subarrays> > <const>` that decide the wording: if statements and conditional expressions alike
+    lens = ('len(ra)', 'ra.narrays', 'len(ra._indices)')
     for n in own_nodes(rm.node):
-        if isinstance(n, ast.If) and isinstance(n.test, ast.Compare) and norm(n.test.left) in ('len(ra)', 'n') and \
-                isinstance(n.test.ops[0], ast.Gt) and isinstance(n.test.comparators[0], ast.Constant):
-            consts.add(n.test.comparators[0].value)
+        t = n.test if isinstance(n, (ast.If, ast.IfExp)) else None
+        if t is not None and isinstance(t, ast.Compare) and len(t.ops) == 1 and \
+                isinstance(t.ops[0], ast.Gt) and isinstance(t.comparators[0], ast.Constant) and \
+                (norm(t.left) in lens or norm(inline(rm, t.left)) in lens):
+            consts.add(t.comparators[0].value)
     ctx.decide(consts == {k, k + 1}, 'R-SIB', 'D5', rm, call[0], 'thresholds',
                f"'first five' / 'and last' wording thresholds {sorted(consts)} equal the listing thresholds "
                f'{{firstnmax, firstnmax+1}} = {{{k}, {k + 1}}}',
